@@ -107,11 +107,29 @@ def run(tier, seed):
         rep.inconcl("MIR dump failed: %s" % e)
         return rep.finish()
     prog = MI.Program(open(path).read(), source_root=os.path.join(core.REPO, "mithril-stm"))
+    cap = find_cap(open(path).read())
+    if cap is None:
+        rep.inconcl("the iteration cap passed to taylor_comparison is not a constant in is_lottery_won's MIR")
+        cap = 1000
+    CAP[0] = cap
+    rep.bounds["loop_iterations_in_code"] = cap
     try:
         decide(rep, prog, tier, B, N)
     except MI.Unencodable as e:
         rep.inconcl("unencodable: %s" % e)
     return rep.finish()
+
+
+CAP = [1000]
+
+
+def find_cap(mir_text):
+    """the iteration cap is_lottery_won passes to taylor_comparison, read from its MIR (a constant in the source)"""
+    m = re.search(r"\nfn (?:[\w:]+::)?is_lottery_won\(.*?\n}\n", mir_text, re.S)
+    if not m:
+        return None
+    c = re.search(r"taylor_comparison\(const (\d+)_usize", m.group(0))
+    return int(c.group(1)) if c else None
 
 
 def sym_taylor(prog, B, q, x, extra=()):
@@ -122,7 +140,7 @@ def sym_taylor(prog, B, q, x, extra=()):
     st = MI.State()
     for c in extra:
         st.assume(c)
-    outs = I.call_fn(f, [z3.IntVal(1000), q, x], st)
+    outs = I.call_fn(f, [z3.IntVal(CAP[0]), q, x], st)
     return I, outs
 
 
@@ -135,8 +153,9 @@ def decide(rep, prog, tier, B, N):
     pan = [o for o in outs if o.kind == "panic"]
     rep.functions += sorted("%s -> %s" % (k, v) for k, v in I.calls_seen.items())
     rep.notes.append("taylor_comparison: %d returning paths, %d residual (undecided after B), %d panic paths; interpreter %s" % (len(rets), len(exh), len(pan), I.stats))
-    if len(rets) != 2 * B or len(exh) != 1:
-        rep.inconcl("unexpected path structure: %d returns / %d residual for B=%d" % (len(rets), len(exh), B))
+    want = (2 * B, 1) if CAP[0] > B else (2 * CAP[0] + 1, 0)  # a cap below B ends the loop inside the unrolling: one more (final `false`) return, no residual
+    if (len(rets), len(exh)) != want:
+        rep.inconcl("unexpected path structure: %d returns / %d residual for B=%d, cap=%d" % (len(rets), len(exh), B, CAP[0]))
     for o in pan:
         rep.inconcl("panic path in taylor_comparison: %s" % o.msg)
     enc = exp_enclosure(x, E, N)
@@ -296,8 +315,8 @@ def wrapper(rep, prog, tier, tmo, failures):
             qv, xv = cargs[1], cargs[2]
             want_q = z3.ToReal(z3.IntVal(2 ** 512)) / z3.ToReal(z3.IntVal(2 ** 512) - ev)
             want_x = -((z3.ToReal(stake) / z3.ToReal(total)) * c)
-            ob = rep.add(core.Obligation("c08_wrapper_dataflow", "smt", "is_lottery_won passes q = 2^512/(2^512-ev), x = -(stake/total)*ln(1-phi_f) and bound 1000 to taylor_comparison and returns its result"))
-            r = smt.check(list(o.pc) + [z3.Or(qv != want_q, xv != want_x, cargs[0] != 1000)], timeout_s=tmo)
+            ob = rep.add(core.Obligation("c08_wrapper_dataflow", "smt", "is_lottery_won passes q = 2^512/(2^512-ev), x = -(stake/total)*ln(1-phi_f) and the iteration cap read from its MIR (%d; the series obligations are run with that cap) to taylor_comparison and returns its result" % CAP[0]))
+            r = smt.check(list(o.pc) + [z3.Or(qv != want_q, xv != want_x, cargs[0] != CAP[0])], timeout_s=tmo)
             same_result = cres is o.value or (z3.is_expr(cres) and z3.is_expr(o.value) and z3.eq(cres, o.value))
             ob.solver_s = r.seconds
             ob.status = "discharged" if (r.status == "unsat" and same_result) else "failed" if r.status == "sat" or not same_result else "inconclusive"
@@ -601,8 +620,8 @@ def validate_and_replay(rep, prog, tier, failures):
         elif fl["clause"] in ("total_stake_origin", "same_decision"):
             try:
                 from checks.c01 import native_stm
-                native = {"sign_vs_verify": native_stm("sign_vs_verify"), "structural": ob.detail[:600]}
-                reproduced = native["sign_vs_verify"].startswith("disagree")
+                native = {"sign_vs_verify": native_stm("sign_vs_verify"), "lost_index": native_stm("lost_index"), "structural": ob.detail[:600]}
+                reproduced = native["sign_vs_verify"].startswith("disagree") or "VIOLATED" in native["lost_index"]
             except Exception as e:
                 native = {"error": str(e)}
         else:
